@@ -359,6 +359,8 @@ def check_catalog_case(cid, modes, acc=None, double=False):
 def _work_catalog(sh, acc):
     import time
 
+    from vf import core
+
     t_start = time.monotonic()
     for k, cid in enumerate(sh["ids"]):
         if time.monotonic() - t_start > sh.get("budget_s", 1e9):
@@ -366,7 +368,15 @@ def _work_catalog(sh, acc):
             acc.tally("catalog_status", "not_reached_within_budget", len(sh["ids"]) - k)
             break
         t0 = time.monotonic()
-        for v in check_catalog_case(cid, sh["modes"], acc, double=sh.get("double", False)):
+        try:
+            with core.time_limit(sh.get("case_limit_s", 120)):
+                vs = check_catalog_case(cid, sh["modes"], acc, double=sh.get("double", False))
+        except core.CaseTimeout:
+            acc.inconclusive += 1
+            acc.tally("catalog_status", "case_time_limit_hit(inconclusive)")
+            acc.stats.setdefault("time_limited_cases", []).append(cid)
+            vs = []
+        for v in vs:
             acc.violation(v["sig"], v["case"], v["detail"])
         acc.timed(cid + (" [f64]" if sh.get("double") else ""), time.monotonic() - t0)
 
